@@ -18,5 +18,5 @@ CONSTANTS
   ESet <- E_Mixed
   HdrSet <- H_MixedPost
 SPECIFICATION Spec
-INVARIANTS Conforms ConformsMixed StepRunAgrees ChunkListOK WindowStable WindowStableMixed MeasureSound MeasureSoundMixed UsedIsCoverage
+INVARIANTS Conforms ConformsMixed StepRunAgrees ChunkListOK WindowStableMixed MeasureSoundMixed
 CHECK_DEADLOCK FALSE
